@@ -160,22 +160,39 @@ func firstN(s string, n int) string {
 
 // Round reconciles every (controller,key) once in PRNG order and runs the GC. Returns whether anything changed.
 func (e *Env) Round() bool {
+	changed, _ := e.RoundErr()
+	return changed
+}
+
+// RoundErr additionally reports how many passes ended with an error, a crash or a panic (work the
+// controller-runtime queue would retry).
+func (e *Env) RoundErr() (changed bool, failed int) {
 	before, beforeT := e.W.Store.Seq(), e.W.Target.Seq()
 	work := e.W.AllWork()
 	if e.R != nil {
 		e.R.Shuffle(len(work), func(i, j int) { work[i], work[j] = work[j], work[i] })
 	}
 	for _, wk := range work {
-		e.Reconcile(wk.Ctrl, wk.Key)
+		pr := e.Reconcile(wk.Ctrl, wk.Key)
+		if pr.Err != nil || pr.Crashed || pr.Panic != nil {
+			failed++
+		}
 	}
 	e.GC()
-	return e.W.Store.Seq() != before || e.W.Target.Seq() != beforeT
+	return e.W.Store.Seq() != before || e.W.Target.Seq() != beforeT, failed
 }
 
-// Quiesce: fair rounds until nothing changes. Returns rounds used and whether it converged.
+// Quiesce: fair rounds until a whole round commits nothing and no pass failed. Returns rounds used and whether it converged.
 func (e *Env) Quiesce(max int) (int, bool) {
+	// disturbances stop here: pending one-shot faults and interposed actions are dropped
+	if len(e.armed) > 0 {
+		e.Logf("dropping %d pending armed faults before settling", len(e.armed))
+		e.armed = nil
+	}
+	e.W.Fresh = true // the caches catch up once disturbances stop
 	for i := 1; i <= max; i++ {
-		if !e.Round() {
+		changed, failed := e.RoundErr()
+		if !changed && failed == 0 {
 			return i, true
 		}
 	}
